@@ -647,6 +647,7 @@ func (s *Service) Serve(conn Conn) error {
 		nc.SetDisconnectHandler(s.handleDisconnect)
 		nc.SetClosedHandler(s.handleClosed)
 	}
+	simConnHandlers(s, conn)
 
 	return s.serve(conn)
 }
